@@ -26,6 +26,7 @@ from orquesta import exceptions as exc
 from orquesta.expressions import base as expr_base
 from orquesta.expressions.functions import base as func_base
 from orquesta.utils import expression as expr_util
+from orquesta.utils import jsonify as json_util
 from orquesta.utils import strings as str_util
 
 
@@ -88,7 +89,9 @@ class JinjaEvaluator(expr_base.Evaluator):
 
     @classmethod
     def contextualize(cls, data):
-        ctx = {"__vars": data}
+        # Evaluate against a copy so that an expression which calls a method that changes
+        # its object, i.e. ctx("x").append(1), does not modify the given context.
+        ctx = {"__vars": json_util.deepcopy(data)}
 
         if isinstance(data, dict):
             ctx["__state"] = ctx["__vars"].get("__state")
